@@ -6,6 +6,7 @@ import Holpy.C18.ProofsSimpB
 import Holpy.C18.ProofsSimp2
 import Holpy.C18.ProofsCong
 import Holpy.C18.ProofsPred
+import Holpy.C18.ProofsHelper
 namespace Holpy.C18
 open Tm
 
@@ -78,6 +79,11 @@ theorem evalRule_sound' (I : Interp) (hI : I.LeOrder) (r : Rule) (cl : List Tm) 
   case iteNeg1 => exact iteNeg1_sound I _ _ h
   case iteNeg2 => exact iteNeg2_sound I _ _ h
   case falseRule => exact falseRule_sound I _ _ h
+  case swapDisj => exact swapDisj_sound I _ _ _ _ h hp
+  case combineDisj => exact combineDisj_sound I _ _ _ _ h hp
+  case impToOr => exact impToOr_sound I _ _ _ h hp
+  case conjPts => exact conjPts_sound I _ _ h hp
+  case disjPts => exact disjPts_sound I _ _ h hp
 
 theorem evalRule_hyps' (r : Rule) (cl : List Tm) (sizes : List Nat) (ps : List Seq) (s : Seq)
     (h : evalRule r cl sizes ps = .ok s) : ∀ x ∈ s.hyps, ∃ p ∈ ps, x ∈ p.hyps := by
@@ -102,6 +108,11 @@ theorem evalRule_hyps' (r : Rule) (cl : List Tm) (sizes : List Nat) (ps : List S
   case transRule => exact transRule_hyps _ _ _ h
   case subproof => exact subproof_hyps _ _ _ h
   case congRule => exact congRule_hyps _ _ _ h
+  case swapDisj => exact swapDisj_hyps _ _ _ _ h
+  case combineDisj => exact combineDisj_hyps _ _ _ _ h
+  case impToOr => exact impToOr_hyps _ _ _ h
+  case conjPts => exact ptsRule_hyps _ _ _ h
+  case disjPts => exact ptsRule_hyps _ _ _ h
   all_goals (intro x hx; exfalso)
   case eqReflexive => simp [eqReflexive_hyps _ _ h] at hx
   case eqCongruentPred => simp [eqCongruentPred_hyps _ _ h] at hx
